@@ -338,12 +338,20 @@ half the tolerance: `2·|v − rep| ≤ δ` when `δ` is even, and `2·|v − re
 both, `no_integer_representative_better`);
 (3) `δ` is the smallest possible: no tolerance `0 ≤ δ' < δ` lets *any* `maxSize` intervals of
 length `δ'` cover the values. -/
-def CompressSpec (values : List Int) (maxSize : Nat) (table : List Int) (m : List (Int × Nat)) : Prop :=
-  ∃ δ : Int, 0 ≤ δ ∧
+def CompressSpecAt (values : List Int) (maxSize : Nat) (table : List Int) (m : List (Int × Nat))
+    (δ : Int) : Prop :=
     (table.head? = some 0 ∧ table.length - 1 ≤ maxSize) ∧
     (∀ v ∈ values, ∃ i rep, lookupIdx m v = some i ∧ 1 ≤ i ∧ table[i]? = some rep ∧
       2 * absI (v - rep) ≤ δ + δ % 2) ∧
     (∀ δ' C, 0 ≤ δ' → δ' < δ → C.length ≤ maxSize → ¬ Covers δ' C values)
+
+def CompressSpec (values : List Int) (maxSize : Nat) (table : List Int) (m : List (Int × Nat)) : Prop :=
+  ∃ δ : Int, 0 ≤ δ ∧ CompressSpecAt values maxSize table m δ
+
+/-- The tolerance is attained: two input values exactly `δ` apart share a class (so, when `δ` is
+odd, `2|v − rep| ≤ δ` is impossible for that class: `no_integer_representative_better`). -/
+def Attained (values : List Int) (m : List (Int × Nat)) (δ : Int) : Prop :=
+  δ = 0 ∨ ∃ v ∈ values, ∃ w ∈ values, w - v = δ ∧ lookupIdx m v = lookupIdx m w
 
 /-! ## Next-larger chains (TFtoPL §84, PLtoTF §110–113) -/
 
